@@ -15,7 +15,8 @@ RULE = ('build: 4 message classes x drawn subset of optional fields x no-reply/n
         'those bytes recovers the same. parse: the same abstract message reference-encoded in either byte order with '
         'permuted header fields and 0-2 unknown field codes must parse to the same message. reject: one name replaced '
         'by an invalid one / reserved path / size limit at len-1,len,len+1 (and the real 2^27 boundary) must raise '
-        'MarshallingError; reject_affixed: every message class x name-carrying argument x valid name with one foreign '
+        'MarshallingError; build_fds: sequences of method calls carrying 0-3 descriptors (oobFDs) built in one process, '
+        'each decoded strictly; reject_affixed: every message class x name-carrying argument x valid name with one foreign '
         'character (newline, CR, NUL, blank, separator, non-ASCII) in front or behind, exhaustive. Non-trivial = (>=1 optional field and a body) or a non-default flag or big-endian / '
         'permuted / unknown-field input; distinct = distinct case JSON.')
 ASSUMPTIONS = ['sender is set through a constructor only where one takes it (ErrorMessage)',
@@ -193,6 +194,44 @@ def reject_case(draw, tier):
     return {'kind': 'limit', 'msg': msg, 'delta': draw(st.sampled_from([-9, -1, 0, 1, 8]))}
 
 
+def enum_build_fds(tier):
+    """Several method calls built in one process, some of them carrying UNIX descriptors (the only constructor that takes
+    an oobFDs list): each must be well-formed on its own, whatever was built before it."""
+    for pattern in ((1, 0, 2, 0, 1), (2, 2, 0), (0, 3, 1, 1, 0, 2)):
+        yield {'pattern': list(pattern)}
+
+
+def run_build_fds(case):
+    from txdbus import message as MSG
+    out = []
+    saved = MSG.DBusMessage._nextSerial
+    try:
+        for idx, nfd in enumerate(case['pattern']):
+            fds = []
+            body = [100 + idx * 10 + k for k in range(nfd)] + ['tail']
+            try:
+                m = MSG.MethodCallMessage('/o', 'Take', interface='a.b', destination='c.d', signature='h' * nfd + 's', body=body,
+                                          oobFDs=fds)
+            except Exception as e:
+                out.append(Disc(exc_key(e, 'buildfd.construct'), exc_detail(e)))
+                break
+            try:
+                d = R.decode_message(m.rawMessage)
+            except R.RefError as e:
+                out.append(Disc('buildfd.not-well-formed', 'message %d of %r (%d descriptors): %s' % (idx, case['pattern'], nfd, e)))
+                break
+            want = {1: '/o', 2: 'a.b', 3: 'Take', 6: 'c.d', 8: 'h' * nfd + 's'}
+            if nfd:
+                want[9] = nfd
+            if d['fields'] != want or d['unknown']:
+                out.append(Disc('buildfd.fields', 'message %d: expected %r got %r (+%r)' % (idx, want, d['fields'], d['unknown'])))
+            if d['body'] != list(range(nfd)) + ['tail'] or fds != body[:nfd]:
+                out.append(Disc('buildfd.body', 'message %d: body %r, descriptor list %r' % (idx, d['body'], fds)))
+    finally:
+        MSG.DBusMessage._nextSerial = saved
+    return out
+
+
 AFFIXES = ['\n', '\r', '\r\n', '\t', ' ', '\x00', '\x0b', '\u2028', '.', '/', ':', '-', 'é']
 BASES = {'path': ['/o', '/a/b_c'], 'member': ['Ping', 'm_2'], 'interface': ['a.b', 'org.verif.If_1'],
          'destination': ['c.d', ':1.42'], 'error_name': ['a.b.E', 'org.verif.Error.X9']}
@@ -312,6 +351,9 @@ SUBCHECKS = [
              n={'quick': 400, 'thorough': 5000}),
     Subcheck('reject', run_reject, classify_reject, strategy=lambda tier: reject_case(tier),
              n={'quick': 300, 'thorough': 2500}),
+    Subcheck('build_fds', run_build_fds, lambda c: (True, ['descriptor_messages_in_sequence']), enumerate=enum_build_fds,
+             shards={'quick': 1, 'thorough': 1},
+             exhaustive_note='3 sequences of 3-6 method calls carrying 0-3 descriptors each, built in one process'),
     Subcheck('reject_affixed', run_reject, classify_reject, enumerate=enum_reject_affixed, shards={'quick': 2, 'thorough': 2},
              exhaustive_note='4 message classes x their name-carrying arguments x 2 valid names x 13 foreign characters '
                              '(newline, CR, NUL, blanks, separators, non-ASCII) x {in front, behind}'),
